@@ -12,7 +12,9 @@ package main
 //     N=f<srchex> | none | amb
 
 import (
+	"encoding/json"
 	"fmt"
+	"io"
 	"sort"
 	"strconv"
 	"strings"
@@ -108,6 +110,98 @@ func runC18Hist(toks []string) string {
 	return strings.Join(out, " ; ")
 }
 
+// c18proc <opts> <ops> <n> (<namehex> <texthex>){n}
+//
+//	the process command of resolve.go (same options, same JSON, a dump after every P) with read operations between
+//	the runs:  T = yang.ToEntry on every module and submodule of the set (key order), followed by a Print of the
+//	           entry and the namespace / instantiating-module / read-only queries on its children;
+//	           C = ms.ClearEntryCache();  G<namehex> = ms.FindModule-free lookup ms.Modules[name] + ToEntry + Find("/")
+//	Reads produce no output: only what they leave behind matters.
+func runC18Proc(toks []string) string {
+	opts, ops := toks[0], toks[1]
+	n, _ := strconv.Atoi(toks[2])
+	names := make([]string, n)
+	texts := make([]string, n)
+	for i := 0; i < n; i++ {
+		names[i] = string(unhex(toks[3+2*i]))
+		texts[i] = string(unhex(toks[4+2*i]))
+	}
+	ms := yang.NewModules()
+	ms.ParseOptions.IgnoreSubmoduleCircularDependencies = strings.Contains(opts, "c")
+	ms.ParseOptions.DeviateOptions.IgnoreDeviateNotSupported = strings.Contains(opts, "n")
+	ms.ParseOptions.StoreUses = strings.Contains(opts, "u")
+	out := &procOut{Loads: []string{}, Runs: []*runDump{}}
+	read := func(m *yang.Module) {
+		defer func() { _ = recover() }() // a read of an unprocessed set may fail; what it leaves behind is the point
+		e := yang.ToEntry(m)
+		if e == nil {
+			return
+		}
+		e.Print(io.Discard)
+		for _, c := range e.Dir {
+			c.Namespace()
+			c.InstantiatingModule()
+			c.ReadOnly()
+		}
+	}
+	for _, op := range strings.Split(ops, ",") {
+		switch {
+		case op == "P":
+			run := &runDump{Errors: []string{}, ErrPos: []string{}, TreeViol: []string{}, FindViol: []string{}}
+			errs := ms.Process()
+			for _, e := range errs {
+				s := e.Error()
+				run.Errors = append(run.Errors, s)
+				m := posRE.FindStringSubmatch(s)
+				if m != nil {
+					run.ErrPos = append(run.ErrPos, m[1]+":"+m[2]+":"+m[3])
+				} else {
+					run.ErrPos = append(run.ErrPos, "")
+				}
+			}
+			if len(errs) == 0 {
+				dumpModules(ms, run, strings.Contains(opts, "f"))
+				if strings.Contains(opts, "q") {
+					for _, m := range ms.Modules {
+						yang.ToEntry(m).Print(io.Discard)
+					}
+				}
+			}
+			out.Runs = append(out.Runs, run)
+		case op == "T":
+			for _, mm := range []map[string]*yang.Module{ms.Modules, ms.SubModules} {
+				var keys []string
+				for k := range mm {
+					keys = append(keys, k)
+				}
+				sort.Strings(keys)
+				for _, k := range keys {
+					read(mm[k])
+				}
+			}
+		case op == "C":
+			ms.ClearEntryCache()
+		case strings.HasPrefix(op, "G"):
+			if m := ms.Modules[string(unhex(op[1:]))]; m != nil {
+				read(m)
+			}
+		case strings.HasPrefix(op, "L"):
+			i, _ := strconv.Atoi(op[1:])
+			if err := ms.Parse(texts[i], names[i]); err != nil {
+				out.Loads = append(out.Loads, "err: "+strings.SplitN(err.Error(), "\n", 2)[0])
+			} else {
+				out.Loads = append(out.Loads, "ok")
+			}
+		}
+	}
+	b, err := json.Marshal(out)
+	if err != nil {
+		return "BROKEN json: " + err.Error()
+	}
+	return string(b)
+}
+
 func init() {
 	handlers["c18hist"] = runC18Hist
+	handlers["c18proc"] = runC18Proc
 }
